@@ -138,6 +138,8 @@ type Vaxis struct {
 
 	mu     sync.Mutex
 	resize int32
+
+	closeOnce sync.Once
 }
 
 // New creates a new [Vaxis] instance. Calling New will query the underlying
@@ -422,6 +424,13 @@ func (vx *Vaxis) Events() chan Event {
 // Close shuts down the event loops and returns the terminal to it's original
 // state
 func (vx *Vaxis) Close() {
+	// Close can run on the input goroutine (kill signal, panic) while the
+	// application calls it too: one of them does the work, the other
+	// waits until the terminal has been restored
+	vx.closeOnce.Do(vx.close)
+}
+
+func (vx *Vaxis) close() {
 	if vx.closed {
 		return
 	}
